@@ -37,8 +37,6 @@ DOC_HEADERS = {
         "deprecated": ["Deprecated"],
     },
 }
-NUMPY_UNSUPPORTED_ALIASES = {"args", "arguments", "params", "keyword args", "keyword arguments", "other args", "other arguments",
-                             "other params", "exceptions"}
 ADMONITION_IDS = ["Note", "Tip", "See also", "Warning", "Example", "Important", "Danger", "To do", "Notes", "My-thing", "Info 2"]
 SPHINX_FIELDS = {"param": ["param", "parameter", "arg", "argument", "key", "keyword"], "var": ["var", "ivar", "cvar"],
                  "returns": ["returns", "return"], "raises": ["raises", "raise", "except", "exception"]}
@@ -395,11 +393,6 @@ def gen_section(g: Gen, style: str, kind: str, parent: dict, opts: dict, used: s
             it["just_name_form"] = rng.choice(["bare", "colon"])
             it["default_form"] = rng.choice([" ", ": ", "="])
         items.append(it)
-    if style == "numpy" and header.lower() in NUMPY_UNSUPPORTED_ALIASES:
-        # finding C13-F4 turns this section into an admonition read by the main loop, where a dash-only line makes the
-        # line above it a section title: keep the defect-adjusted expectation exact by not writing such lines here
-        for it in items:
-            it["desc"] = [g.prose(1, 3) + "." if (l and not l.replace("-", "").strip()) else l for l in it["desc"]]
     return {"k": kind, "header": header, "title": title, "items": items, "single": single, "named": named}
 
 
@@ -730,7 +723,8 @@ def impl_sections(text: str, parent_obj, style: str, opts: dict) -> list:
 
 # ------------------------------------------------------------------ known findings: exact defective behaviour
 def adjust_known(doc: dict, exp: list, opts: dict) -> tuple[list, set]:
-    """Rewrite the expectation the way the documented defects of the unchanged tree distort it.
+    """Rewrite the expectation the way the still-known defects of the tree distort it (C13-F5, C13-F6; F1-F4 and F7 are repaired
+    and have no classifier any more).
 
     Returns (adjusted expectation, ids of the findings whose gap predicate holds somewhere in this document).
     A mismatch is a *known* finding only when the implementation equals the adjusted expectation exactly.
@@ -738,7 +732,6 @@ def adjust_known(doc: dict, exp: list, opts: dict) -> tuple[list, set]:
     exp = json.loads(json.dumps(exp))
     hit: set = set()
     style, parent = doc["style"], doc["parent"]
-    # index expected sections by written section (text sections can be dropped by ignore_init_summary)
     ei = 0
     pairs = []
     for si, sec in enumerate(doc["sections"]):
@@ -746,52 +739,14 @@ def adjust_known(doc: dict, exp: list, opts: dict) -> tuple[list, set]:
             continue
         pairs.append((sec, exp[ei]))
         ei += 1
-    for pi, (sec, e) in enumerate(pairs):
+    for sec, e in pairs:
         k = sec["k"]
-        if style == "google" and k in ("returns", "yields", "receives") and sec["named"]:
-            # C13-F1: `(type): description` - the greedy `.+` of _RE_NAME_ANNOTATION_DESCRIPTION runs to the LAST `):`
-            for it, ee in zip(sec["items"], e["value"]):
-                if it["ann"] is not None and "):" in it["desc"][0]:
-                    r3 = it["ann"] + "): " + it["desc"][0]
-                    j = r3.rfind("):")
-                    ee["annotation"] = r3[:j]
-                    ee["description"] = "\n".join([r3[j + 2:].lstrip(), *it["desc"][1:]])
-                    hit.add("C13-F1")
-        if style == "google" and k == "attributes":
-            # C13-F2: `annotation` is initialised once before the loop; a failed parent lookup keeps the previous item's
-            prev = None
-            attrs = {a["name"]: a["ann"] for a in parent.get("attrs", [])} if parent["kind"] in ("cls", "mod") else {}
-            for it, ee in zip(sec["items"], e["value"]):
-                if it["ann"] is not None:
-                    prev = it["ann"]
-                elif it["name"] in attrs:
-                    prev = attrs[it["name"]]
-                else:
-                    if prev is not None:
-                        ee["annotation"] = prev
-                        hit.add("C13-F2")
         if style == "numpy" and k in ("returns", "yields", "receives"):
             # C13-F5: a bare `name` line (documented as "just the name") matches only the last alternative of _RE_RETURNS: it is the type
             for it, ee in zip(sec["items"], e["value"]):
                 if it["name"] is not None and it["ann"] is None and it["just_name_form"] == "bare":
                     ee["name"], ee["annotation"] = "", it["name"]
                     hit.add("C13-F5")
-        if style == "numpy" and k in ("returns", "yields", "receives", "raises", "warns", "attributes", "deprecated") \
-                and pi + 1 < len(pairs) and sec["header"].lower() not in NUMPY_UNSUPPORTED_ALIASES:
-            # C13-F3: dedent() without strip keeps the blank separator line as a trailing newline of the last item
-            tgt = e["value"] if k == "deprecated" else e["value"][-1]
-            tgt["description"] += "\n"
-            hit.add("C13-F3")
-        if style == "numpy" and k in ITEM_KINDS and sec["header"].lower() in NUMPY_UNSUPPORTED_ALIASES:
-            # C13-F4: the aliases the docs list for Numpydoc sections are not in numpy._section_kind: parsed as an admonition
-            body = []
-            for it in sec["items"]:
-                body.append(numpy_item_head(k, it))
-                body += ["    " + l if l else "" for l in it["desc"]]
-            e.clear()
-            e.update({"kind": "admonition", "title": sec["header"],
-                      "value": {"annotation": sec["header"].lower().replace(" ", "-"), "description": "\n".join(body)}})
-            hit.add("C13-F4")
         if style == "numpy" and k in ("yields", "receives") and len(sec["items"]) == 1 and sec["items"][0]["ann"] is None \
                 and not (sec["items"][0]["name"] is not None and sec["items"][0]["just_name_form"] == "bare") \
                 and fallback_arity(k, parent) < 10 ** 6:
@@ -800,10 +755,6 @@ def adjust_known(doc: dict, exp: list, opts: dict) -> tuple[list, set]:
             part = ret[1] if k == "yields" else ret[2]
             e["value"][0]["annotation"] = part[1][0]
             hit.add("C13-F6")
-    if doc["sections"] and "prop_type" in doc["sections"][0]:
-        # C13-F7: `str: Summary` is split at the colon and the summary keeps the blank after it
-        exp[0]["value"] = " " + exp[0]["value"]
-        hit.add("C13-F7")
     return exp, hit
 
 
@@ -990,7 +941,7 @@ KNOWN_KIND_VALUES = {"parameters", "other parameters", "raises", "warns", "examp
 PINNED_REGEX = {
     "google": {
         "_RE_ADMONITION": (r"^(?P<type>[\w][\s\w-]*):(\s+(?P<title>[^\s].*))?\s*$", re.IGNORECASE),
-        "_RE_NAME_ANNOTATION_DESCRIPTION": (r"^(?:(?P<name>\w+)?\s*(?:\((?P<type>.+)\))?:\s*)?(?P<desc>.*)$", 0),
+        "_RE_NAME_ANNOTATION_DESCRIPTION": (r"^(?:(?P<name>\w+)?\s*(?:\((?P<type>.+?)\))?:\s*)?(?P<desc>.*)$", 0),
         "_RE_DOCTEST_BLANKLINE": (r"^\s*<BLANKLINE>\s*$", 0),
         "_RE_DOCTEST_FLAGS": (r"(\s*#\s*doctest:.+)$", 0),
     },
@@ -1303,7 +1254,7 @@ LEVEL_TEXT = ("Google style: a machine-checked round-trip theorem at character l
               "aliases of the keyword table regenerated from google.py; optional section titles) and admonition sections satisfying a decidable "
               "well-formedness predicate: parse_google(render(secs)) = secs (kinds in written order, titles, names, annotations written or taken "
               "from the signature, defaults, multi-line / blank-line / deeper-indented descriptions), plus no-leak (section i parses as it does alone) "
-              "and signature-fallback corollaries, and refutation witnesses for findings F1, F2 proved by computation. Sphinx style: a partial "
+              "and signature-fallback corollaries; the witnesses of the repaired findings F1, F2 are proved to round-trip. Sphinx style: a partial "
               "round-trip theorem (param/var/raises/returns fields under every alias, any order, multi-line descriptions; result grouped in "
               "Sphinx's fixed order) and the F8 witness. The models (parse_google main loop, block readers, every item reader, both regexes "
               "hand-compiled, Examples reader, five item options; parse_sphinx with all seven field readers and their dictionaries) are tied to "
@@ -1318,9 +1269,11 @@ LEVEL_NOTE = ("Trusted: Coq kernel, extraction, this harness (generators, render
               ":type:/:vartype:/:rtype: fields, distinct names, no blank lines inside descriptions (the model has all of them). Numpy: no Coq model "
               "(its three regexes and textwrap.dedent were not hand-compiled): direct evaluation only. Sphinx descriptions are compared "
               "whitespace-normalised in the direct check (continuation lines are joined with blanks by design), exactly in the theorem instances. "
-              "Eight findings (C13-F1..F8) carry exact defect-adjusted expectations, so any other deviation still alarms.")
+              "Findings C13-F1, F2, F3, F4, F7 are repaired in the source (their witnesses are must-pass corpus cases, corpus/C13); the known "
+              "findings C13-F5, F6, F8 carry exact defect-adjusted expectations, so any other deviation still alarms.")
 MODEL = ("Model.C13_run", "run_C13")
 COQ_TARGETS = ["Proofs/C13_strings.vo", "Proofs/C13_google.vo", "Proofs/C13_sphinx.vo"]
+MODEL_TARGETS = ["Model/C13_run.vo"]        # not a dependency of the proofs: rebuilt when Gen/C13_tables.v changes
 RULE = ("seeded generation of written structures: parent (function with 0-4 annotated/defaulted/starred parameters and name/tuple return, generator "
         "or iterator, class/module with attributes, __init__, property, none) x 0-6 sections drawn from the kinds fitting the parent (10% any kind) in any "
         "order, 1-4 items each, names from the signature or unknown, annotations from 15 spellings, descriptions of 1-6 lines with blank lines, "
@@ -1343,27 +1296,41 @@ ASSUMPTIONS = ["docstring lines are printable ASCII (the theorem's wf_secs requi
                "Returns/Yields/Receives items document at most as many values as the parent's tuple annotation has elements when they rely on it"]
 
 FINDING_WITNESS = {
-    "C13-F1": ("google", "Summary.\n\nReturns:\n    x (int): see f(a): b\n", {},
-               lambda s: s[1]["value"][0]["annotation"] == "int): see f(a" and s[1]["value"][0]["description"] == "b"),
-    "C13-F2": ("google", "Summary.\n\nAttributes:\n    a (int): A.\n    b: B.\n", {},
-               lambda s: s[1]["value"][1]["annotation"] == "int"),
-    "C13-F3": ("numpy", "Summary.\n\nReturns\n-------\nx : int\n    The x.\n\nRaises\n------\nValueError\n    When.\n", {},
-               lambda s: s[1]["value"][0]["description"] == "The x.\n"),
-    "C13-F4": ("numpy", "Summary.\n\nArgs\n----\na : int\n    The a.\n", {},
-               lambda s: s[1]["kind"] == "admonition"),
     "C13-F5": ("numpy", "Summary.\n\nReturns\n-------\nsuccess\n    Whether it succeeded.\n", {},
                lambda s: s[1]["value"][0]["name"] == "" and s[1]["value"][0]["annotation"] == "success"),
-    "C13-F6": None,     # needs a parent: replayed in witness_f6
-    "C13-F7": None,     # needs a property parent: replayed in witness_f7
-    "C13-F8": None,     # needs a parent: replayed in witness_f8
 }
+
+# witnesses of the repaired findings: corpus cases that must PASS (corpus/C13/fixed_witnesses.json)
+CORPUS = "corpus/C13/fixed_witnesses.json"
+
+
+def replay_corpus(ctx):
+    from harness.common.framework import VERIF
+    import griffe
+    path = VERIF / CORPUS
+    if not path.exists():
+        ctx.tie_failure("harness", "corpus", f"{CORPUS} is missing")
+        return
+    for case in json.loads(path.read_text())["cases"]:
+        parent = None
+        if case.get("parent_source"):
+            obj = griffe.visit("m", filepath=None, code=case["parent_source"])
+            for n in case["parent_path"]:
+                obj = obj.members[n]
+            parent = obj
+        got = _impl(case["text"], parent, case["style"], case.get("options") or {})
+        ctx.count("corpus_cases")
+        ctx.case({"corpus": case["id"]}, True)
+        if got != case["expected"]:
+            ctx.property_failure({"style": case["style"], "options": case.get("options") or {}, "text": case["text"],
+                                  "parent": {"kind": "none"}, "corpus": case["id"], "parent_source": case.get("parent_source"),
+                                  "parent_path": case.get("parent_path")},
+                                 {"repaired_finding_returned": case["id"], "expected": case["expected"], "got": got})
 
 
 def replay_witnesses(ctx):
     import griffe
     for fid, w in FINDING_WITNESS.items():
-        if w is None:
-            continue
         style, text, opts, pred = w
         try:
             ok = bool(pred(impl_sections(text, None, style, opts)))
@@ -1376,12 +1343,6 @@ def replay_witnesses(ctx):
         ctx.witness("C13-F6", s[1]["value"][0]["annotation"] == "int")
     except Exception:  # noqa: BLE001
         ctx.witness("C13-F6", False)
-    try:
-        m = griffe.visit("m", filepath=None, code="class K:\n    @property\n    def p(self) -> str: ...\n")
-        s = impl_sections("str: Summary of the property.", m["K"]["p"], "google", {"returns_type_in_property_summary": True})
-        ctx.witness("C13-F7", s[0]["value"] == " Summary of the property.")
-    except Exception:  # noqa: BLE001
-        ctx.witness("C13-F7", False)
     try:
         m = griffe.visit("m", filepath=None, code="def f(a: int): ...\n")
         s = impl_sections("Summary.\n\n:param a: The a.\n:type a: str\n", m["f"], "sphinx", {})
@@ -1705,6 +1666,7 @@ def explore_sphinx(ctx, n: int, with_model: bool = True):
 def explore(ctx):
     logging.disable(logging.CRITICAL)
     replay_witnesses(ctx)
+    replay_corpus(ctx)
     check_string_oracle(ctx, ctx.budget(8000, 80000))
     explore_google(ctx, ctx.budget(1500, 15000))
     explore_google_perturbed(ctx, ctx.budget(700, 8000))
@@ -1734,7 +1696,13 @@ def replay(ctx, data):
     if text is None:
         print("replay names no input:", data.get("no_longer_checks"))
         return 0
-    parent = build_parent(case["parent"])
+    if case.get("parent_source"):
+        import griffe
+        parent = griffe.visit("m", filepath=None, code=case["parent_source"])
+        for n in case.get("parent_path") or []:
+            parent = parent.members[n]
+    else:
+        parent = build_parent(case["parent"])
     print(text)
     print("options:", case.get("options"), " parent:", case.get("parent"))
     print("got     :", json.dumps(_impl(text, parent, case["style"], case.get("options") or {}), indent=1))
